@@ -25,9 +25,16 @@ Step == /\ l <= Len(Log) /\ l' = l + 1
                                    IF m.ok = e.ok /\ (m.ok => m.id = e.id /\ (m.id # "none" => m.stamp = e.stamp)) THEN drift ELSE Append(drift, l)
                               ELSE drift
                   /\ UNCHANGED <<sid, W, H>>
-             [] e.ev = "listing" ->
+             [] e.ev = "listing" /\ e.panic ->
+                  /\ bad' = Append(bad, [sid |-> sid, line |-> l, why |-> "panic while building a listing"])
+                  /\ UNCHANGED <<sid, W, H, drift>>
+             [] e.ev = "listing" /\ ~e.panic ->
                   /\ bad' = IF ListingOK(e.classes, e.shown) THEN bad
                             ELSE Append(bad, [sid |-> sid, line |-> l, why |-> "listing shows an impostor as genuine or drops an entry"])
+                  /\ UNCHANGED <<sid, W, H, drift>>
+             [] e.ev = "author" ->
+                  /\ bad' = IF e.shown => e.post_host = e.author_host THEN bad
+                            ELSE Append(bad, [sid |-> sid, line |-> l, why |-> "post shown with an author from another host"])
                   /\ UNCHANGED <<sid, W, H, drift>>
              [] OTHER -> UNCHANGED <<sid, bad, drift, W, H>>
 Spec == Init /\ [][Step]_vars
